@@ -22,6 +22,7 @@ o := {m: m{|a, b, k: 0| [a, b, k]}, id: 1}
 f := {|a, b, k: 0| [a, b, k]}
 fv := {|x| x.f}
 gv := {|acc, x| acc.g(x)}
+gv2 := {|acc, x| acc + x}
 `
 
 // a template: text with holes {i:type}; benign values per type.
@@ -63,7 +64,7 @@ func c07templates() []c07tmpl {
 	add("chain argument reduce", "«0:arr»$(«1:int»){|a, x| a + x}")
 	add("chain argument list", "«0:arr»@([])+(«1:int»)")
 	add("literal call body", "[1, 2]@{|x| «0:int» + x}")
-	add("var call args", "«0:arr»@^f(«1:int»)")
+	add("var call chain arg", "«0:arr»$(«1:int»)^gv2")
 	add("if true branch", "(«1:int» if «0:true» else 3)")
 	add("if false branch", "(3 if «0:false» else «1:int»)")
 	add("if without else", "(«1:int» if «0:true»)")
